@@ -73,6 +73,7 @@ def parseEv (tok : String) : Option Ev :=
   | ["b", h] => (bytesOf h).map .bytes
   | ["e"] => some .eof
   | ["s"] => some .stop
+  | ["t"] => some .tick
   | ["p"] => some .pause
   | ["d"] => some .resume
   | ["l", cls, site] => do
